@@ -153,7 +153,7 @@ theorem schedule_then (n : Nat) (tail : List Op) : Sys.init.run (schedule n ++ t
   rw [run_append, run_schedule]
 
 theorem formR_ready (n : Nat) : Ready (formR n n) := by
-  refine ⟨?_, ?_, rfl, rfl, rfl, rfl, ?_, rfl, rfl, rfl, rfl, rfl, rfl, rfl, rfl, rfl, rfl⟩
+  refine ⟨?_, ?_, rfl, rfl, rfl, rfl, ?_, rfl, rfl, rfl, rfl, rfl, rfl, rfl, rfl, rfl, rfl, rfl, rfl⟩
   · simp [formR]
   · simp [formR]
   · simp [formR, ackIdle, ackImmediate]
@@ -168,7 +168,7 @@ theorem formR_readyBoth (n : Nat) : ReadyBoth ((formR n n).step (.shutdown true)
       { formR n n with b := { (formR n n).b with st := stShutdownSent, wS := true, sd := 1, callAt := 0 } } := by
     simp [Sys.step, Sys.ep, Sys.put, formR, shutdownCall, Ep.hasData, stEstablished]
   rw [hs]
-  refine ⟨⟨?_, ?_, rfl, rfl, rfl, rfl, ?_, rfl, rfl, rfl, rfl, rfl, rfl, rfl, ?_, rfl⟩, ?_, ?_, rfl, rfl⟩
+  refine ⟨⟨?_, ?_, rfl, rfl, rfl, rfl, ?_, rfl, rfl, rfl, rfl, rfl, rfl, rfl, ?_, rfl, rfl, rfl⟩, ?_, ?_, rfl, rfl⟩
   · simp [formR]
   · simp [formR]
   · simp [formR, ackIdle, ackImmediate]
